@@ -568,15 +568,11 @@ impl Memfs {
         // Convert relative links to absolute to ensure they are clean
         let target = self._abs(guard, if !target.is_absolute() { link.dir()?.mash(target) } else { target })?;
 
-        // Create the new entry as a link and set its target as a file by default
-        let mut entry_opts = MemfsEntry::opts(&link).file().link_to(&target)?;
-
-        // If the target exists and is a directory switch the type
+        // Create the new entry as a link which takes on the type of its target if it exists
+        let mut entry_opts = MemfsEntry::opts(&link).link_to(&target)?;
         {
             if let Some(x) = guard.get_entry(&target) {
-                if x.is_dir() {
-                    entry_opts = entry_opts.dir().link_to(&target)?;
-                }
+                entry_opts = if x.is_dir() { entry_opts.dir() } else { entry_opts.file() }.link_to(&target)?;
             }
         }
 
